@@ -18,12 +18,13 @@ from pyvc.core import Obligation
 from pyvc.values import SInt, SBool, SObj, SOpaque, Sym, Unsupported, PyRaise, zint
 from pyvc.ops import ClassRef
 from pyvc import ops, extract
+from pyvc.inproc import InProc
 
 PROP = 'C16'
 LEVEL = 'proof'
 
 
-class Next(Contract):
+class Next(InProc, Contract):
     prop = PROP
     fn = 'parallel:range.__next__'
     allow_raises = {}
@@ -182,7 +183,7 @@ def mentions(stmt):
     return out
 
 
-class Builder(Contract):
+class Builder(InProc, Contract):
     prop = PROP
     bounded = 'statements over three variables (two shared with distinct locks, one private), every subset of them in each operand'
 
@@ -285,11 +286,15 @@ def pyast_frame():
 
 def extra_obligations(tier, seed):
     obs = pyast_frame()
+    from pyvc.inproc import decide_in_process
+    for ob in obs:
+        decide_in_process(ob)
     return {'obligations': obs, 'summary': '_pyast variables frame: %d expression classes' % len(obs)}
 
 
 def contracts():
-    return [Next()] + builder_contracts()
+    from contracts import c16_fork
+    return [Next()] + builder_contracts() + c16_fork.contracts()
 
 
 TRUSTED = ['pyvc symbolic executor; lock objects as context managers recording acquire/release; _pyast constructors as tagged nodes',
@@ -297,5 +302,15 @@ TRUSTED = ['pyvc symbolic executor; lock objects as context managers recording a
            '_shared_arrays maps each shared array variable to its own lock (new_empty_array_for_evaluable asserts the variable is new)']
 ASSUMPTIONS = ['BOUNDED: _BlockBuilder statements over two shared variables with distinct locks and one private variable, all subsets (labelled bounded)',
                'the frame check of _pyast `variables` is syntactic: children printed by py_expr must be named in variables']
-NOT_COVERED = ['all interleavings of worker processes, visibility of shared memory to the parent, worker failure or kill (fork/_wait): concurrency and faults -- this family is silent on them',
+NOT_COVERED = ['all interleavings of worker processes, visibility of shared memory to the parent: concurrency -- this family is silent on it (the SEQUENTIAL exit-code / kill logic of fork/_fork/_wait is under contract, see contracts/c16_fork.py)',
                'that every shared result array is registered in _shared_arrays (new_empty_array_for_evaluable placement logic), loop grouping']
+
+
+def _merge_fork_lists():
+    from contracts import c16_fork
+    TRUSTED.extend(c16_fork.TRUSTED)
+    ASSUMPTIONS.extend(c16_fork.ASSUMPTIONS)
+    NOT_COVERED.extend(c16_fork.NOT_COVERED)
+
+
+_merge_fork_lists()
